@@ -318,6 +318,9 @@ func (ev *Ev) eqSpec(a, b *Val) *Term {
 		a = ev.fr.makeIface(nil, a, a.T, b.T)
 	}
 	if a.K != b.K {
+		if a.X != nil && b.X != nil && a.X.S == b.X.S && (a.K == KArr || a.K == KMath) && (b.K == KArr || b.K == KMath) {
+			return Eq(a.X, b.X)
+		}
 		specFail("== on different kinds (%v vs %v)", a.T, b.T)
 	}
 	return eqVal(a, b)
@@ -398,6 +401,11 @@ func (ev *Ev) fieldOf(base *Val, name string, e *SExpr) *Val {
 		return ev.c.readModel(ev.st, mf, base)
 	}
 	switch base.K {
+	case KTuple:
+		var i int
+		if _, err := fmt.Sscanf(name, "%d", &i); err == nil && i < len(base.Fs) {
+			return base.Fs[i]
+		}
 	case KStruct:
 		st := under(base.T).(*types.Struct)
 		for i := 0; i < st.NumFields(); i++ {
@@ -734,6 +742,9 @@ func (ev *Ev) call(e *SExpr) *Val {
 				sh = n - 1 - i
 			}
 			by := Select(arr, Add(off, Num(i)))
+			if by.Op == "select" {
+				addTypeFact(And(Le(Num(0), by), Le(by, Num(255))))
+			}
 			sum = Add(sum, Mul(by, Pow2(uint(8*sh))))
 		}
 		return mathVal(sum)
